@@ -28,6 +28,10 @@ func init() {
 					jobs = append(jobs, Job{Prop: "C18", Pkg: "repl", Func: "VerifAutoSave", Args: args, MaxDec: 800})
 				}
 			}
+			// long lines: functions beyond the value-length limit, strings just under it, bindings sorted after them
+			for _, a := range [][]string{{"0", "300", "200"}, {"50", "400", "40"}, {"100", "500", "90"}, {"20", "30", "15"}, {"64", "5000", "60"}, {"0", "30", "3000"}} {
+				jobs = append(jobs, Job{Prop: "C18", Pkg: "repl", Func: "VerifAutoSaveLong", Args: a, MaxDec: 400, MaxSteps: 60_000_000})
+			}
 			// histories: a save that died earlier (leftover temporary files), then a smaller state saved; a save whose
 			// temporary file vanishes before the rename
 			for _, h := range [][]string{
@@ -44,11 +48,11 @@ func init() {
 			return jobs
 		},
 		Budget: map[string]time.Duration{"quick": 6 * time.Minute, "thorough": 30 * time.Minute},
-		Reach:  []string{"killed during auto-save", "auto-save completed", "second save killed", "third save completed", "save with a vanished temporary file"},
+		Reach:  []string{"killed during auto-save", "auto-save completed", "second save killed", "third save completed", "save with a vanished temporary file", "long state reloaded"},
 		Bounds: map[string]interface{}{"states": "previous state of 0, 1, 3 and 4 bindings x new state adding/changing/deleting 0..4 bindings (16 combinations), values a, b all int64",
-			"histories": "4 histories of three sessions: a crash-free save, a save of a larger state killed at every crash point 0..12 (leftover temporary files), then a save of a smaller state that completes - or whose temporary file vanishes before the rename (a failed save)", "crash_points": "every crash point: before and after creating the temporary file, after each written binding, after the last write, after the rename (index -1 = no crash .. 9)"},
+			"long_lines": "6 states with a named function of 30..5000 bytes and a string of 15..3000 bytes under value-length limits 0, 20, 50, 64, 100: what auto-save wrote auto-load restores", "histories": "4 histories of three sessions: a crash-free save, a save of a larger state killed at every crash point 0..12 (leftover temporary files), then a save of a smaller state that completes - or whose temporary file vanishes before the rename (a failed save)", "crash_points": "every crash point: before and after creating the temporary file, after each written binding, after the last write, after the rename (index -1 = no crash .. 9)"},
 		Assumptions: []string{"crash points are the build-tag-guarded hook calls in repl.AutoSave and object.SaveGlobals (commit 04499b7): the process 'dies' by a panic raised from the hook, which the code under test does not recover",
 			"file-system model: rename within one directory is atomic; bytes accepted by Write survive the death of the process; no fsync / power-loss modelling; write failures are not injected (no native counterpart)"},
-		Outside: []string{"power loss, fsync ordering", "crashes inside a single Write call"},
+		Outside: []string{"lines longer than 5000 bytes (auto-load reads the state file with a line scanner whose 64 KiB limit is beyond what the executor can carry: a binding longer than that stops the load silently - reported by a sub-agent, not decided here)", "power loss, fsync ordering", "crashes inside a single Write call"},
 	})
 }
